@@ -453,7 +453,7 @@ func c14Run1(m c14Method, sc *scripted) (res interface{}, err error, pan string,
 		var o out
 		defer func() {
 			if p := recover(); p != nil {
-				o.pan = fmt.Sprint(p)
+				o.pan = fmt.Sprint(p) + " [at " + harness.PanicOrigin() + "]"
 			}
 			ch <- o
 		}()
@@ -877,6 +877,9 @@ func init() {
 				cc := c
 				if len(cc.Body) > 8192 {
 					cc.Body = "(regenerated from body_id)"
+				}
+				if clause == "panic" {
+					cls += panicAt(detail)
 				}
 				s.Violate(engine.Violation{Sig: "C14/" + clause + "/" + cls, Clause: clause, Index: int64(i), Kind: "C14", Case: cc, Expected: "error iff not 2xx / not 207 / uninterpretable, carrying the status", Observed: detail})
 			}
